@@ -2,7 +2,7 @@ CONSTANTS
   MaxLen = 6
   CounterWidth = 2
   CounterLimit = 3
-  Alphabet = {97, 65, 46, 95, 42, 99, 111, 110}
+  Alphabet <- WideSymbols
   MaxNameLen = 6
   MaxSeq = 1
   Affixes <- WideAffixes
